@@ -446,8 +446,12 @@ def b_enumerate(vm, args, kwargs, ctx):
     if isinstance(it, SSeq):
         s = vm.as_int(start)
         return SSeq(it.length, lambda i: (SInt(z3.simplify(s + i)), it.elem(i)), 'enumerate')
+    items = vm.iterate(it)
+    if isinstance(items, SSeq):          # an abstract iterable whose `iterate` hook yields a sequence of symbolic length
+        s, seq = vm.as_int(start), items
+        return SSeq(seq.length, lambda i: (SInt(z3.simplify(s + i)), seq.elem(i)), 'enumerate')
     return [(vm.binop(ast.Add(), start, i) if isinstance(start, Sym) else start + i, x)
-            for i, x in enumerate(vm.iterate(it))]
+            for i, x in enumerate(items)]
 
 
 def b_zip(vm, args, kwargs, ctx):
